@@ -130,7 +130,7 @@ package main
 // /verif/contracts/lemmas/temp_glob.smt2.
 //@ func deleteTempFiles
 //@   mode permissive
-//@   loop 1 invariant [C10] ncalls("Remove") == rangeindex + 1 && ncalls("Glob") == 1 && ncalls("Join") == 1
+//@   loop 1 invariant [C10] -1 <= rangeindex && rangeindex + 1 <= len(matches) && ncalls("Remove") == rangeindex + 1 && ncalls("Glob") == 1 && ncalls("Join") == 1
 //@   call Remove#1 assert [C10] $0 == matches[rangeindex]
 //@   ensures [C10] ncalls("Glob") == 1 && ncalls("Join") == 1 && len(callarg("Join", 1, 0)) == 2 && callarg("Join", 1, 0)[0] == directory && callarg("Join", 1, 0)[1] == "*.cptv.temp*" && callarg("Glob", 1, 0) == callres("Join", 1)
-//@   ensures [C10] result == nil ==> ncalls("Remove") == len(callres("Glob", 1).0)
+//@   check [C10] result == nil ==> ncalls("Remove") == len(matches) && matches == callres("Glob", 1).0
